@@ -1264,10 +1264,10 @@ condexpr(struct scope *s)
 
 	lt = l->type;
 	rt = r->type;
-	if (lt == rt) {
-		t = lt;
-	} else if (lt->prop & PROPARITH && rt->prop & PROPARITH) {
+	if (lt->prop & PROPARITH && rt->prop & PROPARITH) {
 		t = commonreal(&l, &r);
+	} else if (lt == rt) {
+		t = lt;
 	} else if (lt == &typevoid && rt == &typevoid) {
 		t = &typevoid;
 	} else {
@@ -1298,6 +1298,8 @@ condexpr(struct scope *s)
 	e = eval(e);
 	if (e->kind == EXPRCONST && e->type->prop & PROPINT)
 		return exprconvert(e->u.constant.u ? l : r, t);
+	if (e->kind == EXPRCONST && e->type->prop & PROPFLOAT)
+		return exprconvert(e->u.constant.f != 0 ? l : r, t);
 	e = mkexpr(EXPRCOND, t, e);
 	e->u.cond.t = l;
 	e->u.cond.f = r;
